@@ -85,8 +85,10 @@ class History:
         # 'mixed': connect / connect_error / disconnect are handled under
         # the catch-all namespace, the application's events under each
         # namespace itself
+        # 'both': a class-based namespace and, next to it, a function handler
+        # for another event on the same namespace
         self.style = rng.choice(['func', 'func', 'class', 'class', 'star',
-                                 'mixed'])
+                                 'mixed', 'both'])
         self.co = rng.random() < 0.6
         self.events = []
         self.accepted = {}
@@ -155,6 +157,8 @@ class History:
                 add('on_ping', (lambda ns: lambda *a: rec(
                     'event', ns, list(a)))(ns))
                 h.c.register_namespace(type('CN', (base,), body)(ns))
+                if self.style == 'both':
+                    h.on('other', lambda *a: None, ns, self.co)
 
     def rec(self, *e):
         self.events.append(e + (len(self.h.attempts),))
